@@ -343,7 +343,7 @@ R4_RULES = [
     ('R4-pin', r'tokio\s*::\s*pin\s*!\s*\(\s*(?P<x>\w+)\s*\)\s*;', r'let mut \g<x> = vx_pin(\g<x>);', None),
     ('R4-deadline', r'Instant\s*::\s*now\s*\(\s*\)\s*\+\s*Duration\s*::\s*from_millis\s*\(\s*(?P<e>[^()]*)\s*\)', r'vx_deadline(\g<e>)', None),
     ('R4-bench-sample-ids', r'self\s*\.\s*current_batch\s*\.\s*iter\s*\(\s*\)\s*\.\s*filter\s*\((?:[^;]*?)\)\s*\.\s*filter_map\s*\((?:[^;]*?)\)\s*\.\s*collect\s*\(\s*\)', r'vx_bench_sample_ids(&self.current_batch)', None),
-    ('R4-retain-open', r'\.\s*retain\s*\(\s*\|\s*\(\s*_\s*,\s*handler\s*\)\s*\|\s*!\s*handler\s*\.\s*is_closed\s*\(\s*\)\s*\)', r'.vx_retain_open()', None),
+    ('R4-retain-open', r'\.\s*retain\s*\(\s*\|\s*\(\s*_\s*,\s*handler\s*\)\s*(?::[^|]*)?\|\s*!\s*handler\s*\.\s*is_closed\s*\(\s*\)\s*\)', r'.vx_retain_open()', None),
     ('R4-from-be-bytes', r'u64\s*::\s*from_be_bytes\s*\(', r'vx_u64_from_be_bytes(', None),
     ('R4-drain-set', r'(?P<e>%s)\s*\.\s*drain\s*\(\s*\)\s*\.\s*collect\s*\(\s*\)' % _E, r'vx_drain_set(&mut \g<e>)', None),
     ('R4-stake-waiters-zip', r'(?P<a>\b\w+)\s*\.\s*into_iter\(\)\s*\.\s*zip\(\s*(?P<b>\w+)\s*\.\s*into_iter\(\)\s*\)\s*\.\s*map\(\s*\|\(name, handler\)\|\s*\{\s*let stake = self\.committee\.stake\(&name\);\s*Self::waiter\(handler, stake\)\s*\}\s*\)\s*\.\s*collect\(\)', r'vx_stake_waiters(\g<a>, \g<b>, &self.committee)', None),
